@@ -290,6 +290,8 @@ func runC11(c *Ctx) {
 	checkCloserClearsItsSlot(c, "R23")
 	// R24 (= C07.R3): the packet manager stops after pending work — otherwise Serve never returns and no handle is swept
 	c.withOnly("R3", "R24", func() { runC07(c) })
+	checkCloseReportsFailure(c, "R25", func(fn *ssa.Function) bool { return !isClientSide(fn) }, 2)
+	checkInserterInsertsOnEveryPath(c, "R26")
 	pos := func(in ssa.Instruction) string { return p.Pos(in.Pos()) }
 
 	// ---------- R1 handle uniqueness ----------
